@@ -28,6 +28,10 @@ OBLIGATIONS = [
     (P + "parseTpl_param", "lit{n}rest parses to parts [lit, …] index n"),
     (P + "parseTpl_errors", "{} => emptyIndex, {0} => zeroIndex, unclosed/stray braces => errors, for all surrounding text without braces"),
     (P + "writeTpl_parse_roundtrip", "instantiating a parsed template substitutes exactly the parameters: parse(a{1}b{2}c) applied to [x,y] = a x b y c, for all brace-free a b c and all x y"),
+    (P + "parseTpl_general_grammar", "general template grammar (literals, digit-string indexes of any length, keywords, mixed): real_assign stores exactly literals, atoi values and keys; arity = largest index"),
+    (P + "parseTpl_first_error_wins", "error ordering: after any well-formed prefix the first malformed construct decides the error, whatever follows"),
+    (P + "template_index_value", "a digit string below 2^31 is read as its value ({10}, {123})"),
+    (P + "writeTpl_general_grammar", "instantiation of any parsed template: index -> parameter, keyword -> call keyword / helper / nothing; index outside 1..#params -> indexRange"),
     (P + "mapper_constants_pinned", "Gen facts of url_mapper: forbidden key characters / ; , and keys . .. ; braces; digit test"),
     (P + "valid_key_addressable", "every key accepted by assign(key,url) is read by map as exactly that key of the addressed mapper (no navigation, no keywords)"),
     (P + "parseTpl_keyword_roundtrip", "a{key}b parses to a keyword placeholder; instantiation inserts the call's keyword parameter, else the set_value helper, else nothing"),
@@ -288,7 +292,7 @@ def gen_D_typed(rng, n, out):
                         t = rng.choice(PTYPES) if j < 2 else rng.choice("si")
                         ps.append("%d.%s" % (g, t))
                     kind = "t:" + ",".join(ps)
-                meth = hx(rng.choice(["GET", "(GET|POST)", "POST", "P.*"])) if rng.random() < 0.3 else "_"
+                meth = hx(rng.choice(["GET", "(GET|POST)", "POST", "P.*"])) if rng.random() < 0.15 else "_"
             elif r < 0.9:
                 kind, meth, flag = rng.choice(["rh", "hN:1", "h0"]), "_", "r"
             else:
@@ -408,7 +412,7 @@ def gen_P(rng, n, out):
 
 
 # ------------------------------------------------------------------ url_mapper
-TPL_ATOMS = ["{1}", "{2}", "{3}", "{lang}", "{k}", "/", "/a", "b", "{", "}", "{}", "{0}", "{00}", "{01}", "{1x}", "{x1}", "{7}",
+TPL_ATOMS = ["{10}", "{12}", "{010}", "{6}{lang}", "{1}", "{2}", "{3}", "{lang}", "{k}", "/", "/a", "b", "{", "}", "{}", "{0}", "{00}", "{01}", "{1x}", "{x1}", "{7}",
              "{4294967296}", "{4294967297}", "{99999999999999999999}", "{ 1}", "{-1}", "{{1}", "{1}}", "?x=", "\n", "{a{b}"]
 KEYS = ["k", "key", "a", "", ".", "..", "a/b", "a;b", "a,b", "x.y", "...", " ", "k1"]
 
@@ -815,6 +819,16 @@ def main():
                 elif o.startswith("err:") and k == "T": branch["tpl_error"] += 1
                 elif "err:" in o: branch["mapper_error"] += 1
         c.extra_cov["branches_hit_in_model"] = branch
+        tc = [(cs, o) for cs, o in zip(full, out_m) if cs.startswith("D ") and " t:" in cs]
+        ran_typed = 0
+        for cs, o in tc:
+            w = cs.split()
+            last = o.split()[-1] if o.split() else ""
+            ids = {w[i + 1] for i in range(len(w) - 4) if w[i] == "L" and w[i + 4].startswith("t")}
+            if any(ev.startswith("R") and ev[1:].split(":")[0] in ids for ev in last.split(";")):
+                ran_typed += 1
+        c.extra_cov["typed_handler_cases"] = {"cases_with_typed_handlers": len(tc), "a_typed_handler_ran": ran_typed,
+                                              "no_typed_handler_ran": len(tc) - ran_typed}
         pc = [(cs, o) for cs, o in zip(full, out_m) if cs.startswith("P ")]
         c.extra_cov["pool_cases"] = {
             "with_classic_async_mounts": sum(1 for cs, o in pc if " | A " in cs),
